@@ -175,6 +175,11 @@ pub enum Op {
     JQ(u8, u8),
     /// Vec of both clones -> steps_iter -> first 4 items
     Agg,
+    /// three next() calls on the live iterator of clone k (reaches the end of the cached
+    /// prefix within one letter)
+    Adv3(u8),
+    /// next() on a live steps_iter of a jittered clone (jitter 2) of clone 0 that shares the cache
+    JNext,
 }
 
 pub fn alphabet() -> Vec<Op> {
@@ -191,6 +196,9 @@ pub fn alphabet() -> Vec<Op> {
         Op::JQ(0, 2),
         Op::JQ(1, 3),
         Op::Agg,
+        Op::Adv3(0),
+        Op::Adv3(1),
+        Op::JNext,
     ]
 }
 
@@ -209,6 +217,8 @@ pub fn run_history(pf: &[u64], hist: &[Op]) -> Vec<Vec<u64>> {
     let c0 = ExtrapolatingCurve::new(ArrSpec::curve(pf));
     let c1 = c0.clone();
     let clones = [&c0, &c1];
+    let jc = c0.clone_with_jitter(d(2));
+    let mut jiter: Option<Box<dyn Iterator<Item = response_time_analysis::time::Duration> + '_>> = None;
     let mut iters: [Option<Box<dyn Iterator<Item = response_time_analysis::time::Duration> + '_>>; 2] = [None, None];
     let mut out = vec![];
     for op in hist {
@@ -232,6 +242,19 @@ pub fn run_history(pf: &[u64], hist: &[Op]) -> Vec<Vec<u64>> {
                 let v: Vec<&ExtrapolatingCurve> = vec![&c0, &c1];
                 out.push(v.steps_iter().take(4).map(du).collect());
             }
+            Op::Adv3(k) => {
+                if iters[k as usize].is_none() {
+                    iters[k as usize] = Some(clones[k as usize].steps_iter());
+                }
+                let it = iters[k as usize].as_mut().unwrap();
+                out.push((0..3).map(|_| it.next().map(du).unwrap_or(u64::MAX)).collect());
+            }
+            Op::JNext => {
+                if jiter.is_none() {
+                    jiter = Some(jc.steps_iter());
+                }
+                out.push(vec![jiter.as_mut().unwrap().next().map(du).unwrap_or(u64::MAX)]);
+            }
         }
     }
     out
@@ -242,7 +265,9 @@ pub fn reference_history(pf: &[u64], hist: &[Op]) -> Vec<Vec<u64>> {
     let mut eager: Curve = ArrSpec::curve(pf);
     eager.extrapolate(d(12 * pf.last().unwrap() + 40));
     let steps: Vec<u64> = eager.steps_iter().take(64).map(du).collect();
+    let jsteps: Vec<u64> = eager.clone_with_jitter(d(2)).steps_iter().take(64).map(du).collect();
     let mut pos = [0usize; 2];
+    let mut jpos = 0usize;
     let mut out = vec![];
     for op in hist {
         match *op {
@@ -257,13 +282,21 @@ pub fn reference_history(pf: &[u64], hist: &[Op]) -> Vec<Vec<u64>> {
             }
             Op::JQ(_, dc) => out.push(vec![eager.number_arrivals(d(delta_class(pf, dc) + 2)) as u64]),
             Op::Agg => out.push(steps[..4].to_vec()),
+            Op::Adv3(k) => {
+                out.push(steps[pos[k as usize]..pos[k as usize] + 3].to_vec());
+                pos[k as usize] += 3;
+            }
+            Op::JNext => {
+                out.push(vec![jsteps[jpos]]);
+                jpos += 1;
+            }
         }
     }
     out
 }
 
 fn part_b(ctx: &mut Ctx, evals: &mut u64, nontrivial: &mut u64, samples: &mut Vec<Value>) {
-    let depth = if ctx.quick() { 4 } else { 6 };
+    let depth = if ctx.quick() { 5 } else { 7 };
     let prefixes: Vec<Vec<u64>> = if ctx.quick() {
         vec![vec![1, 3], vec![0, 4], vec![0, 2, 5], vec![2, 5, 7, 11]]
     } else {
@@ -275,8 +308,8 @@ fn part_b(ctx: &mut Ctx, evals: &mut u64, nontrivial: &mut u64, samples: &mut Ve
     let bad = Mutex::new(Vec::<(String, String, Value)>::new());
     for pf in &prefixes {
         for len in 1..=depth {
-            // depth 6 on the first two prefixes only (3.0e6 histories each)
-            if len == 6 && pf != &prefixes[0] && pf != &prefixes[1] {
+            // depth 7 on the first two prefixes only (1.7e8 histories each)
+            if len == 7 && pf != &prefixes[0] && pf != &prefixes[1] {
                 continue;
             }
             let total = (alpha.len() as u64).pow(len as u32);
@@ -286,7 +319,7 @@ fn part_b(ctx: &mut Ctx, evals: &mut u64, nontrivial: &mut u64, samples: &mut Ve
                 n.fetch_add(1, Ordering::Relaxed);
                 // histories that query beyond the prefix before something else are the
                 // interesting ones
-                if hist.iter().any(|o| matches!(o, Op::Q(_, 3) | Op::JQ(_, 3))) && hist.iter().any(|o| matches!(o, Op::Next(_) | Op::Agg)) {
+                if hist.iter().any(|o| matches!(o, Op::Q(_, 3) | Op::JQ(_, 3))) && hist.iter().any(|o| matches!(o, Op::Next(_) | Op::Agg | Op::Adv3(_) | Op::JNext)) {
                     nt.fetch_add(1, Ordering::Relaxed);
                 }
                 let want = match catch(|| reference_history(pf, &hist)) {
@@ -342,10 +375,10 @@ pub fn run(ctx: &mut Ctx) -> (String, Value, Vec<String>) {
     let cov = json!({
         "evaluations": evals,
         "distinct_nontrivial": nontrivial,
-        "rule": "(a) every super-additive delta-min prefix of the box x every extrapolate / extrapolate_steps / extrapolate_with_bound argument (non-trivial = the prefix actually grew); (b) every operation history up to the stated depth over a 12-letter alphabet on two clones sharing the cache, replayed on fresh objects and compared with an eagerly extrapolated Curve (non-trivial = history mixes a beyond-prefix query with iterator use)",
+        "rule": "(a) every super-additive delta-min prefix of the box x every extrapolate / extrapolate_steps / extrapolate_with_bound argument (non-trivial = the prefix actually grew); (b) every operation history up to the stated depth over a 15-letter alphabet on two clones (and a jittered clone) sharing the cache, replayed on fresh objects and compared with an eagerly extrapolated Curve (non-trivial = history mixes a beyond-prefix query with iterator use)",
         "extrapolation_cases": a_evals,
         "histories": evals - a_evals,
-        "history_depth": if ctx.quick() { 4 } else { 6 },
+        "history_depth": if ctx.quick() { 5 } else { 7 },
         "samples": samples,
         "exhaustive": true,
     });
